@@ -68,6 +68,7 @@ def units(tier, seed):
         us.append({'kind': 'entries', 'names': names[i:i + CHUNK_E], 'tier': tier, 'seed': seed})
     us.append({'kind': 'selfalias', 'tier': tier, 'seed': seed})
     us.append({'kind': 'inplace', 'tier': tier, 'seed': seed})
+    us.append({'kind': 'floordiv', 'tier': tier, 'seed': seed})
     progs = programs(tier)
     for i in range(0, len(progs), CHUNK_P):
         us.append({'kind': 'programs', 'progs': progs[i:i + CHUNK_P], 'tier': tier, 'seed': seed})
@@ -142,6 +143,36 @@ def run_selfalias(u, out):
                 out['fails'].append({'sig': 'C14|x o x|%s|operand modified' % nm, 'case': case, 'detail': {}})
             elif r1.data.shape != r2.data.shape or not np.array_equal(r1.data, r2.data, equal_nan=True):
                 out['fails'].append({'sig': 'C14|x o x|%s|differs from copy' % nm, 'case': case, 'detail': {}})
+
+
+def run_floordiv(u, out):
+    """x // y (division with removable singularity): operands untouched, also when a leading coefficient of y vanishes in
+    some directions only"""
+    for D in (3, 4):
+        for P in (1, 3):
+            for zero_dirs in ([], [0], [P - 1], list(range(P))):
+                X = np.zeros((D, P))
+                Y = np.zeros((D, P))
+                for p in range(P):
+                    X[:, p] = [0.5 * (d + 1) * (-1) ** (d + p) + 0.25 * p for d in range(D)]
+                    Y[:, p] = [1.0 + 0.5 * d + 0.125 * p for d in range(D)]
+                    if p in zero_dirs:
+                        X[0, p] = 0.0
+                        Y[0, p] = 0.0
+                x, y = UTPM(X.copy()), UTPM(Y.copy())
+                case = {'kind': 'floordiv', 'D': D, 'P': P, 'zero_dirs': zero_dirs}
+                out['evals'] += 1
+                out['keys'].append('floordiv|%d|%d|%s' % (D, P, zero_dirs))
+                try:
+                    q = x // y
+                    q2 = UTPM(X.copy()) // UTPM(Y.copy())
+                except Exception as ex:
+                    out['counters']['floordiv_raises'] = out['counters'].get('floordiv_raises', 0) + 1
+                    continue
+                if not (np.array_equal(x.data, X) and np.array_equal(y.data, Y)):
+                    out['fails'].append({'sig': 'C14|floordiv|operand modified|%s' % ('y0=0 in some direction' if zero_dirs else 'regular'), 'case': case, 'detail': {}})
+                elif not np.array_equal(q.data, q2.data, equal_nan=True):
+                    out['fails'].append({'sig': 'C14|floordiv|not reproducible', 'case': case, 'detail': {}})
 
 
 def check_program(prog, depth, seed, out, ops=None):
@@ -272,6 +303,8 @@ def run_unit(u):
         out['samples'] = [{'entry': u['names'][0], 'DP': DPS, 'layouts': LAYOUTS}]
     elif u['kind'] == 'selfalias':
         run_selfalias(u, out)
+    elif u['kind'] == 'floordiv':
+        run_floordiv(u, out)
     elif u['kind'] == 'inplace':
         o2 = {'evals': 0, 'nontrivial': 0, 'fails': [], 'samples': [], 'counters': {}}
         C02.run_alias({'tier': u['tier']}, o2)
@@ -296,5 +329,8 @@ def replay(case):
         return [f for f in out['fails'] if f['case']['op'] == case['op'] and f['case']['D'] == case['D'] and f['case']['P'] == case['P']]
     if case['kind'] == 'inplace':
         return C02.replay(dict(case, kind='alias'))
+    if case['kind'] == 'floordiv':
+        run_floordiv({}, out)
+        return [f for f in out['fails'] if f['case']['D'] == case['D'] and f['case']['P'] == case['P'] and f['case']['zero_dirs'] == case['zero_dirs']]
     check_program(case['prog'], case.get('depth', 1), case.get('seed', 0), out)
     return [f for f in out['fails'] if f['case'].get('op') == case.get('op')]
